@@ -422,6 +422,8 @@ type rcfg struct {
 	// PreBuf-byte buffers (no further Read: the end of the stream is never asked for), then Reset(source)
 	PreBytes int `json:"preBytes,omitempty"`
 	PreBuf   int `json:"preBuf,omitempty"`
+	// PreSinkFail > 0 (with PreBytes > 0): the earlier life is a WriteTo whose sink fails after this many bytes
+	PreSinkFail int `json:"preSinkFail,omitempty"`
 	// PreFile: the earlier life reads this other stream to its end (io.Copy) before Reset(source)
 	PreFile string `json:"preFile,omitempty"`
 	PrePart int    `json:"prePart,omitempty"`
@@ -566,7 +568,18 @@ func runReaderDelay(data []byte, cfg rcfg, watchdog time.Duration, outLimit int,
 			}
 			zr.Reset(src)
 		}
-		if cfg.PreBytes > 0 {
+		if cfg.PreBytes > 0 && cfg.PreSinkFail > 0 {
+			_, _ = zr.WriteTo(&limitedBuf{limit: cfg.PreSinkFail})
+			if cfg.Seek {
+				zr.Reset(seekFrag{src})
+			} else {
+				zr.Reset(src)
+			}
+			if afterPreLife != nil {
+				afterPreLife()
+				afterPreLife = nil
+			}
+		} else if cfg.PreBytes > 0 {
 			pb := cfg.PreBuf
 			if pb <= 0 {
 				pb = 4096
